@@ -111,19 +111,29 @@ def generic_cases(terms, ctx, enumerate_cond=None, premise=None, max_enum=8, abs
             raise Undecided('conditions are mutually nested')
         c = min(ready, key=lambda x: x.id)
         v = premise(c) if premise else None
+        why = ''
         if v is None and c.op in ('fcmp', 'icmp') and c.attr in ('oeq', 'eq', 'one'):
             try:
                 a, b = ctx.rat(c.args[0]), ctx.rat(c.args[1])
                 same = ctx.requal(a, b)
                 v = same if c.attr in ('oeq', 'eq') else (not same)
-            except P.NotPoly:
-                v = None
+            except P.NotPoly as e:
+                v = None; why = ' (%s)' % e
         if v is None and c.op == 'fcmp' and c.attr in ('olt', 'ole'):
             # comparisons between constants fold in the term layer; sign tests of sqrt / fabs atoms:
             try:
                 a, b = ctx.rat(c.args[0]), ctx.rat(c.args[1])
                 if ctx.requal(a, b):
                     v = (c.attr == 'ole')
+                else:
+                    def cv(r):
+                        n, d = r
+                        if (not n or (len(n) == 1 and () in n)) and len(d) == 1 and () in d:
+                            return (n.get((), 0)) / d[()]
+                        return None
+                    x, y = cv(a), cv(b)
+                    if x is not None and y is not None:
+                        v = (x < y) if c.attr == 'olt' else (x <= y)
             except P.NotPoly:
                 pass
         if v is not None:
@@ -131,8 +141,18 @@ def generic_cases(terms, ctx, enumerate_cond=None, premise=None, max_enum=8, abs
             yield from step([T.resolve(t, {c: v}) for t in cur], a2, depth)
             return
         if enumerate_cond is None or not enumerate_cond(c) or depth >= max_enum:
-            raise Undecided('condition %s cannot be decided at a generic point' % T.show(c, 3)[:200])
-        for v in (True, False):
+            raise Undecided('condition %s cannot be decided at a generic point%s' % (T.show(c, 3)[:200], why))
+        # conditions with the same meaning over the reals (equal rational operands) get the same truth value
+        ck = None
+        try:
+            ra, rb = ctx.rat(c.args[0]), ctx.rat(c.args[1])
+            ck = (c.attr,) + tuple(tuple(sorted(pp.items())) for pp in (ra[0], ra[1], rb[0], rb[1]))
+        except P.NotPoly:
+            pass
+        known = asg.get(('key', ck)) if ck is not None else None
+        for v in ((True, False) if known is None else (known,)):
             a2 = dict(asg); a2[c] = v
-            yield from step([T.resolve(t, {c: v}) for t in cur], a2, depth + 1)
-    yield from step(list(terms), {}, 0)
+            if ck is not None: a2[('key', ck)] = v
+            yield from step([T.resolve(t, {c: v}) for t in cur], a2, depth + (1 if known is None else 0))
+    for asg, res in step(list(terms), {}, 0):
+        yield dict((k, v) for k, v in asg.items() if not isinstance(k, tuple)), res
